@@ -143,6 +143,15 @@ CasesX ==
     \cup {Case("X", <<Send(A1, 3, SAllot(pp, [i \in 1..Len(pp) |-> SAcct("a", NoOD)]), DAcct("c"))>>, Bal3(5, 2, 0)) : pp \in BadAllots}
     \cup {Case("X", <<Send(A1, 3, SWorld, DAllot(pp, [i \in 1..Len(pp) |-> DAcct("c")]))>>, Bal3(5, 2, 0)) : pp \in BadAllots}
 
+\* ------------------------------------------------------------------ allotments through scripts (C24)
+Accts5 == <<"a", "b", "c", "d", "e">>
+Bal5 == [x \in {"a", "b", "c", "d", "e"} |-> [as \in {A1, A2} |-> 0]]
+PVecsA == IF Thorough THEN PVecs(6, 4) ELSE PVecs(4, 3)
+AmtsA  == IF Thorough THEN 0..13 ELSE {0, 1, 2, 3, 5, 7, 11}
+CasesA ==
+    {Case("A", <<Send(A1, amt, SWorld, DAllot(pv, [i \in 1..Len(pv) |-> DAcct(Accts5[i])]))>>, Bal5) : pv \in PVecsA, amt \in AmtsA}
+    \cup {Case("A", <<Send(A1, amt, SAllot(pv, [i \in 1..Len(pv) |-> SAcct(Accts5[i], Unb)]), DAcct("e"))>>, Bal5) : pv \in PVecsA, amt \in AmtsA}
+
 \* ------------------------------------------------------------------ seeded random programs over the larger space
 \* (depth <= 3, <= 3 branches per block, 3 accounts + world, 2 assets, amounts 0..6, balances -2..4,
 \*  denominators <= 12).  RandomElement draws from TLC's generator, seeded by `-seed` (VERIF_SEED).
@@ -208,9 +217,16 @@ RStmt(d, allowBal) ==
          [] kind = 4 /\ allowBal -> SendBal(as, RAcct(d), RTopSrc(d), RDst(d))
          [] OTHER   -> Send(as, Pick(0..6), RTopSrc(d), RDst(d))
 
-RProg(d) ==
+RProg1(d) ==
     LET n == PickW(<<1, 1, 2, 2, 3>>) IN
     [i \in 1..n |-> RStmt(d, i = 1)]
+\* three attempts at a program the compiler accepts (about 1/8 of the sample stays ill-formed and
+\* exercises the static rules)
+RProg(d) ==
+    LET p1 == RProg1(d)
+        p2 == RProg1(d)
+        p3 == RProg1(d)
+    IN IF WfProg(p1) THEN p1 ELSE IF WfProg(p2) THEN p2 ELSE p3
 
 RBal(u) == [x \in {"a", "b", "c"} |-> [as \in {A1, A2} |-> Pick(-2..4)]]
 RDepth(u) == IF Thorough THEN PickW(<<1, 2, 2, 3>>) ELSE PickW(<<1, 2, 2>>)
@@ -223,6 +239,7 @@ Cases ==
       [] Family = "E4" -> CasesE4
       [] Family = "E5" -> CasesE5
       [] Family = "X"  -> CasesX
+      [] Family = "A"  -> CasesA
       [] Family = "EQ" -> CasesE1 \cup CasesE2 \cup CasesE3 \cup CasesE4 \cup CasesE5 \cup CasesX
 
 Init == IF Family = "R"
@@ -234,7 +251,7 @@ R  == Run(c.prog, c.bal)
 ID == Ideal(c.prog, c.bal)
 
 \* the compiler-reject family is rejected, the other structured families are accepted
-FamilyOk(r) == (c.fam = "X" => r.err = "compile") /\ (c.fam \in {"E1", "E2", "E3", "E4", "E5"} => r.err # "compile")
+FamilyOk(r) == (c.fam = "X" => r.err = "compile") /\ (c.fam \in {"E1", "E2", "E3", "E4", "E5", "A"} => r.err = "")
 
 \* The single invariant used by the checks: all theorems on the case, then print it with its outcome
 \* (Run and Ideal are evaluated once per case).
